@@ -400,6 +400,78 @@ func c04SlowProp(t *testing.T, k *verifkit.Kit) func(c c04Case) error {
 	}
 }
 
+// Failing state reads: while the forwarding state cannot be read (permission denied on the sysctl file, or any other
+// error) the advertiser may stop, re-dial or fail - what it must not do is guess: every RA that does go out still has to
+// agree with the forwarding state of that moment. (Run may return an error here; that is not judged.)
+func c04FailProp(t *testing.T, k *verifkit.Kit) func(c c04Case) error {
+	return func(c c04Case) error {
+		r := runAdvertiser(t, c.Sc, nil)
+		if r.Panic != nil || r.W == nil {
+			return verifkit.Violf("panic", "panic in bubble: %v", r.Panic)
+		}
+		tl := r.W.timeline()
+		failing, during := time.Duration(-1), 0
+		var windows [][2]time.Duration
+		for _, e := range c.Sc.Events {
+			if e.Kind != "statefail" {
+				continue
+			}
+			if e.Err != "" && failing < 0 {
+				failing = time.Duration(e.AtNS)
+			} else if e.Err == "" && failing >= 0 {
+				windows = append(windows, [2]time.Duration{failing, time.Duration(e.AtNS)})
+				failing = -1
+			}
+		}
+		if failing >= 0 {
+			windows = append(windows, [2]time.Duration{failing, 1 << 62})
+		}
+		for i, x := range r.Writes {
+			final := c.Sc.Terminate && x.Start >= r.StopAt && x.Dst == vkAllNodes && i == len(r.Writes)-1 && r.Returned
+			f, amb := fwdAt(c, "eth0", x.Start)
+			for _, wd := range windows {
+				if x.Start >= wd[0] && x.Start <= wd[1] {
+					during++
+				}
+			}
+			okF, okNF := x.RA == c.Sc.Cfg.expect(true, final), x.RA == c.Sc.Cfg.expect(false, final)
+			if !(f && okF || !f && okNF || amb && (okF || okNF)) {
+				sig := "C04/transmitted-ra-wrong"
+				if !f && x.Lifetime != 0 {
+					sig = "C04/nonzero-lifetime-while-not-forwarding"
+				}
+				return verifkit.Violf(sig, "RA to %v at %v with forwarding=%v (state reads failing during %v):\nwant %s\ngot  %s\n%s", x.Dst, x.Start, f, windows, c.Sc.Cfg.expect(f, final), x.RA, tl)
+			}
+		}
+		k.Record(c, len(windows) > 0, fmt.Sprintf("state-read-failures=%d", min(len(windows), 3)), fmt.Sprintf("ras-sent-while-failing=%d", min(during, 3)))
+		return nil
+	}
+}
+
+func c04GenFail(t *rapid.T) c04Case {
+	s, ms := int64(time.Second), int64(time.Millisecond)
+	cfg := c06BaseCfg(rapid.SampledFrom([]int64{4, 8}).Draw(t, "max"))
+	cfg.LifeS = rapid.SampledFrom([]int64{1800, 9000, 12}).Draw(t, "life")
+	sc := advScenario{Cfg: cfg, Fwd0: rapid.IntRange(0, 3).Draw(t, "fwd0") == 0, Terminate: rapid.Bool().Draw(t, "term")}
+	at, host := int64(0), 0
+	for i, n := 0, rapid.IntRange(2, 8).Draw(t, "nevents"); i < n; i++ {
+		at += rapid.SampledFrom([]int64{1, ms, 300 * ms, s, 3 * s, 4 * s}).Draw(t, "gap")
+		switch rapid.IntRange(0, 5).Draw(t, "kind") {
+		case 0:
+			sc.Events = append(sc.Events, advEvent{AtNS: at, Kind: "flip", Value: rapid.Bool().Draw(t, "v")})
+		case 1, 2:
+			sc.Events = append(sc.Events, advEvent{AtNS: at, Kind: "statefail", Err: rapid.SampledFrom([]string{"perm", "perm", "other", "syscall", ""}).Draw(t, "err")})
+		case 3:
+			sc.Events = append(sc.Events, advEvent{AtNS: at, Kind: "msg", Msg: "ra", From: "fe80::99", RA: &vRA{Hop: 32, LifeS: 1800}})
+		default:
+			host++
+			sc.Events = append(sc.Events, advEvent{AtNS: at, Kind: "rs", From: rapid.SampledFrom([]string{"::", fmt.Sprintf("fe80::%x", 0x300+host)}).Draw(t, "from")})
+		}
+	}
+	sc.StopNS = at + rapid.Int64Range(1, 5*s).Draw(t, "tail")
+	return c04Case{Sc: sc}
+}
+
 func c04GenSlow(t *rapid.T) c04Case {
 	s, ms := int64(time.Second), int64(time.Millisecond)
 	cfg := c06BaseCfg(rapid.SampledFrom([]int64{4, 8, 600}).Draw(t, "max"))
@@ -438,9 +510,13 @@ func TestVerif_C04(t *testing.T) {
 		if strings.HasPrefix(sub, "slow") {
 			return verifkit.Decode(raw, slow)
 		}
+		if strings.HasPrefix(sub, "failing-state") {
+			return verifkit.Decode(raw, c04FailProp(t, k))
+		}
 		return verifkit.Decode(raw, prop)
 	})
 	verifkit.Enumerate(k, t, "path-x-forwarding-x-lifetime-matrix", true, c04Matrix, prop)
 	verifkit.Rapid(k, t, "forwarding-flip-histories", k.N(1500, 300000), c04Gen, prop)
 	verifkit.Rapid(k, t, "slow-state-reads", k.N(400, 60000), c04GenSlow, slow)
+	verifkit.Rapid(k, t, "failing-state-reads", k.N(600, 100000), c04GenFail, c04FailProp(t, k))
 }
